@@ -329,5 +329,40 @@ pub fn run(cfg: &RunCfg) -> i32 {
             check.violate("random", &v.case, v.failure);
         }
     }
+    if !check.has_violation() {
+        // the callers of the flush procedure (periodic task, shutdown sequence) in a real process
+        use crate::props::c18::{self, Backend, Stop};
+        check.assume("process part: a real server process in JSON mode with a flush interval of 1 s (the minimum the configuration allows); one client, so the applied order is the request order; SIGKILL can hit anywhere, including inside a flush - the positions are sampled by wall-clock time, not enumerated");
+        let backend = Backend { mode: "Json", interval_s: 1, prop: "C10" };
+        let n = cfg.cases(24, 2_000);
+        let strat = || {
+            (
+                c18::writes(16, false),
+                prop_oneof![5 => (0..1600u16).prop_map(Stop::KillAfterMs), 2 => any::<u16>().prop_map(Stop::KillAfterAck), 2 => Just(Stop::Term)],
+                (any::<u16>(), 1020..1500u16),
+            )
+                .prop_map(|(writes, stop, pause)| c18::Case { writes, stop, pause_at: Some(pause) })
+                .boxed()
+        };
+        let (agg, v) = run_prop(cfg, "process", n, strat, |c: &c18::Case| {
+            let mut rep = c18::check_case_on(c, &kfs, backend)?;
+            let get = |name: &str| rep.counters.iter().find(|(k, _)| *k == name).map(|(_, n)| *n).unwrap_or(0);
+            let (prefix, changes) = (get("recovered_prefix"), get("changes"));
+            if prefix > 0 && prefix < changes {
+                rep.classes.push("recovered_a_flush_from_the_middle_of_the_history");
+            }
+            rep.nontrivial = prefix > 0 && (prefix < changes || rep.classes.contains(&"clean_stop"));
+            Ok(rep)
+        });
+        check.add_part(
+            "process",
+            "a server process with JSON persistence (flush interval 1 s) receives 1..=16 requests (set, cset, delete, pdelete, grave goods / last will registrations) by one client, who pauses 1.0-1.5 s at a generated position so that a periodic flush falls into the middle of the history, and is stopped by SIGKILL after 0-1.6 s, by SIGKILL right after a generated answer, or by SIGTERM; a second process on the same directory is read back; oracle: the served user keys (value, kind, CAS version) equal the state after some prefix of the single-key changes with the registrations of that prefix applied - never a mix - and all of them after a clean stop; non-trivial = the recovered prefix is non-empty and (shorter than the history or the stop was clean); distinct = case",
+            false,
+            agg,
+        );
+        if let Some(v) = v {
+            check.violate("process", &v.case, v.failure);
+        }
+    }
     check.finish()
 }
